@@ -21,6 +21,27 @@ def _direct_reductions(fn):
                 l = fn.strip(args[0])
                 if l is not None and l['k'] == 'CXXMemberCallExpr' and l.get('callee') in ('adjoint', 'transpose'):
                     out.append((x, '%s() * ...' % l['callee']))
+        # a length of an n-vector of the factorization measured entry-wise (max / min / sum of |entries|): Euclidean as well --
+        # the entries of a B-normalised vector scale with 1 / sqrt(||B||).  Coefficient vectors (V^H f, h) are not n-vectors.
+        if x['k'] == 'CXXMemberCallExpr' and x.get('org') == 'E' and x.get('callee') in ('maxCoeff', 'minCoeff', 'sum', 'mean'):
+            o = fn.call_object(x)
+            root = None
+            while o is not None:
+                o = fn.strip(o)
+                if o is None:
+                    break
+                if o['k'] == 'MemberExpr' and o.get('mk') == 'field':
+                    root = ('F', o['member'])
+                    break
+                if o['k'] == 'DeclRefExpr' and 'var' in o:
+                    root = (('P' if o['var'] in fn.params else 'L'), fn.locals[o['var']]['name'])
+                    break
+                if o['k'] == 'CXXMemberCallExpr':
+                    o = fn.call_object(o)
+                else:
+                    break
+            if root in (('F', 'm_fac_f'), ('P', 'f'), ('L', 'w')):
+                out.append((x, '%s() of the entries of %s' % (x['callee'], root[1])))
     return out
 
 
@@ -426,6 +447,191 @@ def norm_divisions_guarded(ctx, rule='division-by-norm-guarded'):
                       'matrix) this is 0/0, every later quantity is NaN, the operator is applied to NaN vectors and the run ends in an internal exception' % (fn.s(x)[:30], nm, what))
     if n < 1:
         raise AnalysisBroken('no division by a local norm found in the factorization classes (Arnoldi::init confirmed)')
+
+
+def residual_checked_against_basis(ctx, rule='projected-residual-checked-against-the-basis'):
+    """A residual formed by ONE projection, f = w - V (V^H w), is orthogonal to the basis only up to eps ||w||.  When w lies
+    almost in span(V) -- a start vector that the operator maps to an eigenvector (rank-one and one-eigenvalue matrices with any
+    start vector), an invariant subspace -- f is cancellation noise of that size and mostly NOT orthogonal to V; normalised into
+    the next basis column it destroys V^H V = I (Gram matrix of rank 2 instead of 3, spurious Ritz values reported as
+    converged with zero-norm vectors).  Every member of the factorization that forms such a residual must therefore look at
+    V^H f afterwards: on every normal path from the projection to the exit of the member (or to the next projection) it
+    computes the inner product of the basis with the residual (the orthogonality test of Daniel-Gragg-Kaufman-Stewart, or an
+    unconditional second projection).  Sibling agreement: the Lanczos step loop tests in every step; the Arnoldi step loop must
+    too (a shortcut `||f|| > c ||h||: skip the test` lets V'V drift from the identity over many restarts); init(), whose basis is
+    one exactly normalised column, may decide by the norm ratio whether a correction is needed."""
+    n = 0
+    seen = set()
+    for fn in ctx.F.concrete():
+        if fn.cls not in FAC or not fn.cfg or fn.d.get('ctor') or (fn.cls, fn.name, len(fn.params)) in seen:
+            continue
+        projs = []
+        for x in fn.walk():
+            if x['k'] in ('CXXOperatorCallExpr', 'BinaryOperator') and x.get('op') == '=':
+                t = sym(fn, x, inline=False)
+                if t[1] in (('F', 'm_fac_f'), ('noalias', ('F', 'm_fac_f'))) and isinstance(t[2], tuple) and t[2][0] == '-' and len(t[2]) == 3 and \
+                        isinstance(t[2][2], tuple) and t[2][2][0] == '*':
+                    projs.append(x)
+        if not projs:
+            continue
+        seen.add((fn.cls, fn.name, len(fn.params)))
+
+        def looks_at_basis(n_):
+            if n_['k'] != 'CXXMemberCallExpr' or n_.get('callee') not in ('inner_product', 'adjoint_product', 'trans_product'):
+                return False
+            a = [sym(fn, y, inline=False) for y in fn.call_args(n_)]
+            return any(u == ('F', 'm_fac_f') for u in a)
+        for pj in projs:
+            n += 1
+            pids = set(p_['id'] for p_ in projs)
+            hit = paths.search(fn, [fn.pos_of(pj)], stop=looks_at_basis,
+                               target=lambda n_: n_['k'] == 'ReturnStmt' or (n_['id'] in pids and n_['id'] != pj['id']),
+                               exit_is_target=lambda b: True, normal_only=True)
+            # the accepted sibling idiom: the path leaves only through the DGKS shortcut  `if (beta > c * norm(h)) continue;`
+            dgks = []
+            if hit is not None:
+                # norm-ratio tests: a comparison of the norm of the residual (or its cache) with a multiple of the size of the
+                # projection coefficients, guarding either a `continue` (skip the check) or the correction itself
+                for i_ in fn.walk():
+                    if i_['k'] != 'IfStmt':
+                        continue
+                    g = sym(fn, i_['cond'], inline=False)
+                    if g[0] not in ('<', '<='):
+                        continue
+                    a_, b_ = show(g[1]), show(g[2])
+                    res_side = lambda t_: 'm_beta' in t_ or ('norm' in t_ and 'm_fac_f' in t_)
+                    coef_side = lambda t_: ('norm' in t_ or 'abs' in t_) and ('h' in t_.replace('m_fac_f', '') or 'm_fac_H' in t_)
+                    if (res_side(a_) and coef_side(b_)) or (res_side(b_) and coef_side(a_)):
+                        dgks.append(i_['cond'])
+                # the shortcut is sound only while the basis is a single, exactly normalised column (init): with several columns a
+                # small loss of orthogonality in V makes ||f|| / ||h|| misjudge the cancellation and passes the error on amplified;
+                # in the step loop the test has to be made in every step (the Lanczos sibling does)
+                if dgks and fn.name == 'init':
+                    hit = paths.search(fn, [fn.pos_of(pj)], stop=lambda n_: looks_at_basis(n_) or any(fn.within(n_, d_) for d_ in dgks),
+                                       target=lambda n_: n_['k'] == 'ReturnStmt' or (n_['id'] in pids and n_['id'] != pj['id']),
+                                       exit_is_target=lambda b: True, normal_only=True)
+            skipped = hit is not None and fn.name != 'init' and bool(dgks)
+            if skipped:
+                ctx.fail(rule, '%s::%s' % (fn.cls.replace('Spectra::', ''), fn.name), fn.qname,
+                         'the orthogonality test of `%s` is skipped whenever ||f|| exceeds a multiple of the size of the projection coefficients: with several basis columns that ratio says nothing '
+                         'once V has lost a little orthogonality, the error passes into the new column amplified, and over many restarts V^H V drifts away from the identity (spurious Ritz values '
+                         'reported as converged with zero-norm vectors); the Lanczos sibling tests in every step' % fn.s(pj)[:40], path=hit)
+                continue
+            ctx.check(hit is None, rule, '%s::%s' % (fn.cls.replace('Spectra::', ''), fn.name), fn.qname,
+                      'after `%s` every path computes V^H f (orthogonality test / second projection)%s' % (fn.s(pj)[:40], ' or passes the norm-ratio test' if fn.name == 'init' else '') if hit is None else
+                      '`%s` is handed on without ever forming V^H f: when the operator maps the start vector (almost) onto a multiple of itself -- rank-one matrices, one distinct eigenvalue, '
+                      'a computed eigenvector as start vector -- this residual is cancellation noise that is not orthogonal to the basis, and it becomes the next basis vector' % fn.s(pj)[:50],
+                      path=hit)
+    if n < 3:
+        raise AnalysisBroken('only %d projected residuals found (init and the two factorize_from confirmed)' % n)
+
+
+# degree (in the scale of the operator) of the named quantities of the factorization classes: 1 = scales like ||A||, 0 = dimensionless
+SCALE_DEGREE = {
+    ('F', 'm_beta'): 1, ('P', 'fnorm'): 1, ('F', 'm_fac_f'): 1, ('P', 'f'): 1, ('L', 'w'): 1, ('L', 'h'): 1, ('L', 'Vf'): 1, ('P', 'Vf'): 1,
+    ('F', 'm_fac_H'): 1, ('F', 'm_eps'): 0, ('F', 'm_n'): 0, ('F', 'm_m'): 0, ('L', 'v'): 0, ('P', 'v0'): 0, ('L', 'v0'): 0, ('L', 'Viv'): 0,
+    ('F', 'm_fac_V'): 0, ('L', 'Vs'): 0, ('P', 'V'): 0,
+}
+
+
+def _degree(fn, t, env):
+    """degree of a normal form in the operator scale: 0, 1, .. ; 'zero-test' for the exact-zero threshold; None if unknown."""
+    if not isinstance(t, tuple):
+        return None
+    if t in (('F', 'm_near_0'),):
+        return 'zero-test'
+    if t[0] == 'lit':
+        return 0
+    if t in SCALE_DEGREE:
+        return SCALE_DEGREE[t]
+    if t[0] == 'L' and t[1] in env:
+        return env[t[1]]
+    if t[0] == 'call' and t[1] in ('epsilon', 'min', 'max') and len(t) == 2:
+        return 0
+    if t[0] in ('call',) and t[1] in ('sqrt',) and len(t) == 3:
+        d = _degree(fn, t[2], env)
+        return d // 2 if isinstance(d, int) and d % 2 == 0 else None
+    if t[0] in ('call',) and t[1] in ('abs', 'fabs', 'real', 'imag') and len(t) == 3:
+        return _degree(fn, t[2], env)
+    if t[0] == 'norm' or (t[0] == 'call' and t[1] == 'norm'):
+        return _degree(fn, t[-1], env)
+    if t[0] in ('maxCoeff', 'cwiseAbs', 'head', 'tail', 'col', 'real', 'array', 'matrix'):
+        return _degree(fn, t[1], env)
+    if t[0] in ('()', '[]', 'coeff', 'coeffRef'):
+        return _degree(fn, t[1], env)
+    if t[0] == 'ctor' and len(t) >= 3:          # Map over a block of H
+        for u in t[2:]:
+            if isinstance(u, tuple) and 'm_fac_H' in show(u):
+                return 1
+        return None
+    if t[0] == '&':
+        return _degree(fn, t[1], env)
+    if t[0] == '*':
+        ds = [_degree(fn, u, env) for u in t[1:]]
+        if any(d is None or d == 'zero-test' for d in ds):
+            return None
+        return sum(ds)
+    if t[0] == '/' and len(t) == 3:
+        a, b = _degree(fn, t[1], env), _degree(fn, t[2], env)
+        if a is None or b is None or 'zero-test' in (a, b):
+            return None
+        return a - b
+    if t[0] in ('+', '-') and len(t) >= 3:
+        ds = set(_degree(fn, u, env) for u in t[1:])
+        return ds.pop() if len(ds) == 1 else None
+    if t[0] == '?:' and len(t) == 4:
+        ds = set(_degree(fn, u, env) for u in t[2:]) - {0} if ('lit', '0') in t[2:] else set(_degree(fn, u, env) for u in t[2:])
+        return ds.pop() if len(ds) == 1 else None
+    if t[0] == 'u-':
+        return _degree(fn, t[1], env)
+    return None
+
+
+def thresholds_homogeneous(ctx, rule='residual-thresholds-scale-with-the-operator'):
+    """The properties hold "to rounding level relative to ||A||" for norms over many orders of magnitude.  Every decision the
+    factorization takes by comparing the residual norm (or the orthogonality error, or a norm of A v) with a threshold must then
+    be invariant under A -> c A: both sides of the comparison have the same degree in the operator scale.  A threshold such as
+    eps * sqrt(n) (degree 0) against ||f|| (degree 1) declares a perfectly good residual of a small-norm matrix to be zero and
+    replaces it by a random direction (the Krylov relation is then wrong by the discarded coupling); for a large-norm matrix it
+    never fires.  Exempt: the exact-zero test against the class's near-zero constant (1 / it must not overflow).  Degrees are
+    computed from a table of the named quantities (residual, its cached norm, H, projection coefficients: 1; eps, n, unit vectors,
+    inner products of unit vectors: 0) through products, quotients, sums, abs and norms."""
+    n = 0
+    seen = set()
+    for fn in ctx.F.concrete():
+        if fn.cls not in FAC or not fn.cfg or fn.d.get('ctor') or (fn.cls, fn.name, len(fn.params)) in seen:
+            continue
+        seen.add((fn.cls, fn.name, len(fn.params)))
+        env = {}
+        for x in fn.walk():
+            if x['k'] == 'DeclStmt':
+                for d in x['decls']:
+                    if 'init' in d and 'var' in d:
+                        dg = _degree(fn, sym(fn, d['init'], inline=False), env)
+                        if dg is not None and ('L', fn.locals[d['var']]['name']) not in SCALE_DEGREE:
+                            env[fn.locals[d['var']]['name']] = dg
+        for x in fn.walk():
+            if x['k'] != 'BinaryOperator' or x.get('op') not in ('<', '<=', '>', '>='):
+                continue
+            a = sym(fn, x['c'][0], inline=False)
+            b = sym(fn, x['c'][1], inline=False)
+            da, db = _degree(fn, a, env), _degree(fn, b, env)
+            if not any(d in (1, 2) for d in (da, db)):
+                continue                 # not a comparison of a scaled quantity
+            n += 1
+            inst = '%s::%s' % (fn.cls.replace('Spectra::', ''), fn.name)
+            if 'zero-test' in (da, db):
+                ctx.ok(rule, inst, fn.qname, '`%s`: exact-zero test against the near-zero constant' % fn.s(x)[:50])
+                continue
+            if da is None or db is None:
+                raise AnalysisBroken('%s: cannot determine the scale degree of `%s` (%s vs %s)' % (fn.qname, fn.s(x)[:60], da, db))
+            ctx.check(da == db, rule, inst, fn.qname,
+                      '`%s`: both sides scale like ||A||^%d' % (fn.s(x)[:50], da) if da == db else
+                      '`%s` compares a quantity that scales like ||A||^%d with one that scales like ||A||^%d: for an operator of small norm the test fires on residuals that are far above '
+                      'rounding level relative to ||A|| (a valid residual is discarded and the factorization continues with a random direction: A V = V H + f e\' is wrong by the lost coupling, '
+                      'and pairs are reported as converged that are not), for one of large norm it never fires' % (fn.s(x)[:60], da, db))
+    if n < 8:
+        raise AnalysisBroken('only %d threshold comparisons found in the factorization classes (10 confirmed by hand)' % n)
 
 
 def beta_tracks_residual(ctx, rule='residual-norm-tracks-residual'):
